@@ -145,12 +145,10 @@ pub fn run_case<G: Cv>(env: &Env<G>, c: &Case, seed: u64) -> Out {
         // a panic is not an acceptance (hostile-input panics are C08's business)
         Err(m) => return Out::NoProof(format!("verify panicked: {}", m)),
     };
-    // the two roles must have built the same statement
+    // the oracle judges the statement the prover built; if the verifier built a different one
+    // (role synchrony is C06/C16's business) its verdict says nothing about this witness
     if vr.ctx.refcs.cons != rc.cons {
-        // only possible if the challenges differed, i.e. the verifier stopped before the closures ran
-        if vr.result.is_ok() {
-            return Out::Bad { expected: "same statement on both roles".into(), observed: "verifier accepted a run in which its constraints differ from the prover's".into() };
-        }
+        return Out::NoProof("precondition: the two roles built different statements".into());
     }
     if vc.is_empty() && vg.is_empty() {
         return Out::Trivial;
